@@ -27,7 +27,7 @@ ANCHORS = [
     "acnportal.acnsim.network.charging_network:ChargingNetwork.update_pilots",
 ]
 REQUIRED = ["runs_judged", "schedules_submitted", "empty_schedules", "schedules_beyond_horizon", "schedule_in_last_period_beyond_horizon",
-            "set_pilot_calls_checked", "twin_runs", "malformed_unknown_station_rejected", "malformed_unequal_rejected",
+            "set_pilot_calls_checked", "held_pilots_checked", "twin_runs", "malformed_unknown_station_rejected", "malformed_unequal_rejected",
             "infeasible_schedule_warnings", "probe_ev_cells_checked", "regime:mr-None", "regime:mr-1", "regime:mr-k"]
 BUDGET_S = {"quick": 240, "thorough": 3000}
 
@@ -121,6 +121,13 @@ def _run(d, mal, typed):
                 sim.iteration, {k: v.current_pilot for k, v in evses.items()}, sim.peak)
 
     box["take"] = take
+    held = box["held"] = []  # (period, {station: pilot the EVSE holds at the end of the period}), occupied or vacant alike
+
+    def end_of_period(ctx, result, exc):
+        held.append((sim.iteration, {k: v.current_pilot for k, v in evses.items()}))
+
+    from vlib.monitors import Wrap
+    hold = Wrap(sim.network, "post_charging_update", after=end_of_period).install()
     probe = SimProbe(sim, snapshots=False)
     probe.step_limit = simrun.last_event_ts(d) + 5
     PLOG["cur"] = plog = []
@@ -130,6 +137,7 @@ def _run(d, mal, typed):
     finally:
         PLOG["cur"] = None
         probe.detach()
+        hold.remove()
     return sim, evs, probe, sch, plog, box
 
 
@@ -198,6 +206,19 @@ def run_case(case, obs):
             obs.ev("set_pilot_calls_checked")
             if pv != Mp[ids.index(st), t]:
                 obs.violate("applied_pilot_vs_schedules", f"period {t} station {st}: EVSE received {pv!r}, schedules say {Mp[ids.index(st), t]!r}", **wit)
+                break
+        else:
+            continue
+        break
+    # ---- the pilot each EVSE holds at the end of every period (vacant stations included) equals the model
+    for t, pilots in box.get("held", []):
+        if t >= Mp.shape[1]:
+            continue
+        for st, pv in pilots.items():
+            obs.ev("held_pilots_checked")
+            if pv != Mp[ids.index(st), t]:
+                obs.violate("held_pilot_vs_schedules", f"period {t} station {st}: EVSE holds pilot {pv!r} at the end of the period, schedules say "
+                            f"{Mp[ids.index(st), t]!r}", **wit)
                 break
         else:
             continue
